@@ -29,6 +29,7 @@ import (
 	"github.com/scionproto/scion/private/storage/db"
 	pathsql "github.com/scionproto/scion/private/storage/path/sqlite"
 	"github.com/scionproto/scion/private/storage/utils"
+	"verifharness/internal/glit"
 	"verifharness/internal/segbuild"
 	"verifharness/internal/vgen"
 )
@@ -71,7 +72,7 @@ type variant struct {
 var pathVariants = [nVar]variant{
 	{info: 1000, signNs: 100e9, exp: 10},
 	{info: 2000, signNs: 200e9, exp: 3, peer: true, peerExp: 2},
-	{info: 2500, signNs: 200e9, exp: 20},                      // same version as 1
+	{info: 2500, signNs: 200e9, exp: 20},                           // same version as 1
 	{info: 500, signNs: 200e9 + 1, exp: 5, peer: true, peerExp: 7}, // newer by 1 ns, expires earlier
 }
 var beaconVariants = [nVar]variant{
@@ -754,7 +755,7 @@ func main() {
 		"values; next-query times with ties. Non-trivial = the history contains an update, an ignored insert, a non-empty " +
 		"query result"
 	bp, pp := mkPool(true), mkPool(false)
-	run.Prelude = prelude(bp, pp)
+	run.Prelude = glit.Rewrite(prelude(bp, pp))
 	rng := vgen.NewRand(run.Seed)
 	quick := run.Tier != "thorough"
 	n := run.Count(120, 6000)
@@ -797,7 +798,7 @@ func main() {
 		} else {
 			nontriv = stats["p-insert:0/1"] > 0 && stats["p-insert:0/0"] > 0 && stats["p-get:1-3"]+stats["p-get:4+"] > 0
 		}
-		id := run.Add(kind, term, strings.Join(key, ";"), nontriv, map[string]any{"ops": key})
+		id := run.Add(kind, glit.Rewrite(term), strings.Join(key, ";"), nontriv, map[string]any{"ops": key})
 		if len(errs) > 0 {
 			run.Violate(id, "the database returned an error: "+errs[0], map[string]any{"errors": errs, "ops": key})
 		}
